@@ -12,3 +12,9 @@ claim("C11", "exploration",
       "Thousands of generated flat models (scalar, Boolean, if-, for-, array, function-call and initial equations over every operator and builtin reachable through OP_MAP/exitExpression) are compiled by the real backend; dae and initial residual functions are evaluated at typed random points and compared per equation with an independent Python evaluator. Held = no mismatch and no generation failure on everything generated; coverage per feature/operator is in the evidence.",
       "trusts the mflat/mexpr evaluator, CasADi's evaluation of its own functions, and the conditioning guard (ill-conditioned points are discarded, counted)",
       "DESIGN.md section 4, C11")
+
+claim("C23", "exploration",
+      "exhaustive window enumeration with a reject/accept oracle and a value monitor on the compiled residual",
+      "Every array shape up to 4 / 3x3, every constant subscript and slice bound in a window around the valid range, loop ranges and index arithmetic, in 12 syntactic contexts (about 3 400 models) is compiled by the real backend: out-of-range must raise, in-range must compile and select exactly the reference elements (checked by value). The window is enumerated completely in both tiers; thorough adds expression and parameter subscripts.",
+      "trusts the mflat reference for in-range value checks; 'any exception' counts as rejection; empty ranges are outside the property",
+      "DESIGN.md section 4, C23")
